@@ -264,6 +264,9 @@ func genLogCase(r *core.Rand, tier string) []string {
 	for _, m := range ms {
 		ops = append(ops, "m "+m)
 	}
+	if r.Chance(1, 5) {
+		return append(ops, "runmod")
+	}
 	return append(ops, "run")
 }
 
@@ -414,7 +417,7 @@ func genReadInput(r *core.Rand) []byte {
 func (P) Gen(r *core.Rand, tier string, emit func([]string)) {
 	logs, reads := 400, 300
 	if tier == "thorough" {
-		logs, reads = 2500, 6000
+		logs, reads = 4000, 15000
 	}
 	for i := 0; i < logs; i++ {
 		emit(genLogCase(r, tier))
